@@ -125,13 +125,13 @@ impl Prop for P {
             vec(any::<u8>(), 0..=3),
             any::<bool>(),
         )
-            .prop_map(|(dag, outs, points, lens, extra_inputs)| Case {
+            .prop_map(|(dag, outs, points, lens, extra_inputs)| { let points = gens::coincide(&dag, points); Case {
                 dag,
                 outs,
                 points,
                 lens,
                 extra_inputs,
-            })
+            }})
             .boxed()
     }
 
